@@ -180,6 +180,17 @@ def averages(check, proj):
             gotc = mb.it.call_function(f, [mb.obj, cst])
             _decide(check, "MESH-AVG", f.qualname, f.loc(), A, gotc, w_cst, "%s of a constant c == %s exactly%s" % (name, ctext, path), key="const")
         mb.it.cond_policy = None
+        # ... and the constant ZERO in particular (a residual component that vanishes identically): the average of
+        # zeros is 0, not 0/0
+        zero = SArr(N, [(0, N, A.const(0))])
+        try:
+            got0 = mb.it.call_function(f, [mb.obj, zero])
+            _decide(check, "MESH-AVG", f.qualname, f.loc(), A, got0 if not isinstance(got0, (int, Fraction)) else A.const(got0), A.const(0), "%s of an identically zero array == 0" % name, key="zero")
+        except AnalysisError as e:
+            if "division by literal zero" in str(e):
+                check.violation("MESH-AVG", f.qualname, "%s of an identically zero array divides by an expression that is exactly zero there (0/0 = NaN): not exact for the constant 0 (a vanishing residual component is reported as NaN)" % name, f.loc(), key="zero-div")
+            else:
+                check.undecided("MESH-AVG", f.qualname, "%s of a zero array: %s" % (name, e), f.loc())
 
 
 class Family:
